@@ -89,3 +89,11 @@ CHECKS["C13"] = dict(
           "and by mtime, the fake VCS log must be free of mutating commands and hooks, then the real `update` runs with the same arguments; the printed diff is parsed syntactically into "
           "hunks and the trace spec applies them to the old text and compares with what the real run wrote; a dry exit 0 requires a real exit 0 and the same announced version."),
     note=_NOTE, ref="DESIGN.md section 6, C13")
+CHECKS["C06"] = dict(
+    technique="TLA+ spec of the update pipeline with single faults (MC_C06) model-checked with TLC + replay of every exported terminal state against the real `update`",
+    text=("Design level: projects of 1..4 (thorough 5) configured files x 1..2 patterns, every single fault (each (file, pattern) non-matching, each file removed, gate rejection), "
+          "commit on/off, dry/real, both engines; invariants FailedUpdateTouchesNothing, FaultMeansFailure, NoFaultMeansSuccess, DryWritesNothing; the lazy write loop of the repaired "
+          "defect S3 is kept as a constant whose TRUE setting must be rejected. Conformance (spec -> code): TLC exports one JSON line per terminal state; each is concretised (config "
+          "file entry at a varying position, fake git when commit is on) and run through the real `update`; exit class, changed files and the VCS command log are validated by the trace "
+          "spec (Trace_Update, event `fault`)."),
+    note=_NOTE, ref="DESIGN.md section 6, C06")
